@@ -35,7 +35,9 @@ NAME_POOLS = [
     ["t1", "t2", "t3", "t4", "t5", "t6", "t7"],
     ["all", "link", "compile", "lib", "rt", "hex", "clean"],
     ["zeta", "Build", "x", "app_2", "m", "obj", "k9"],
+    ["1", "2", "10", "a1", "A", "a", "aa"],
 ]
+BIG_POOL = [f"n{i:02d}" for i in range(40)]
 
 # ------------------------------------------------- process model + recording
 
@@ -102,9 +104,30 @@ def gen_project(ch, pool):
     n = 1 + ch.weighted([1, 3, 5, 6, 5, 3, 2], "ntargets")
     names = ch.perm(pool, "nameperm")[:n] if ch.chance(1, 2, "shufnames") \
         else pool[:n]
-    shape = ch.weighted([3, 4, 3, 3], "shape")
+    shape = ch.weighted([24, 32, 24, 24, 1], "shape")
     deps = {x: [] for x in names}
-    if shape == 0 and n <= 5:
+    if shape == 4:
+        # large sparse graph: a long chain / forest with a few extra edges
+        # (recursion depth, quadratic orderings, size dependent cut-offs)
+        n = 10 + ch.draw(20, "bign")
+        names = ch.perm(BIG_POOL, "bignames")[:n]
+        deps = {x: [] for x in names}
+        for i in range(1, n):
+            par = i - 1 if ch.chance(5, 8, "chain") else ch.draw(i, "bigpar")
+            deps[names[par]].append(names[i])
+        for _ in range(ch.draw(4, "bigextra")):
+            a = ch.draw(n, "bigxa")
+            b = ch.draw(n, "bigxb")
+            lo, hi = min(a, b), max(a, b)
+            if lo != hi and names[hi] not in deps[names[lo]]:
+                deps[names[lo]].append(names[hi])
+        if ch.chance(1, 4, "bigcycle"):
+            a = ch.draw(n, "bigca")
+            b = ch.draw(n, "bigcb")
+            lo, hi = min(a, b), max(a, b)
+            if names[lo] not in deps[names[hi]]:
+                deps[names[hi]].append(names[lo])
+    elif shape == 0 and n <= 5:
         # uniform over all digraphs on n nodes, self loops included
         mask = ch.draw(1 << (n * n), "adjmask")
         for i in range(n):
@@ -130,7 +153,10 @@ def gen_project(ch, pool):
                     x, y = names[order[a]], names[order[b]]
                     if x not in deps[y]:
                         deps[y].append(x)
-    ntasks = {x: 1 + ch.weighted([5, 2, 1], "ntasks") for x in names}
+    # a target without tasks is invisible in the history, but what it
+    # depends on still has to run (and before its dependents)
+    ntasks = {x: ch.weighted([1, 10, 4, 2], "ntasks") for x in names} \
+        if n <= 8 else {x: ch.weighted([1, 6], "ntasks") for x in names}
     via = ch.weighted([1, 1, 1], "via")  # 0 direct, 1 recipe, 2 construct
     default = None
     ncalls = 1 + ch.weighted([5, 2, 1], "ncalls")
@@ -476,6 +502,7 @@ class Spec:
     selftest_samples = 400
     fresh_samples = 200
     shrink_runs = 1500
+    slow_run_s = 0.01  # per run; above this the workers are unpinned
     shrink_wall_s = 60
     run_one = staticmethod(run_one)
     classify = staticmethod(classify)
